@@ -132,6 +132,7 @@ type recorder struct {
 	cparamOK bool
 	lastCtx  context.Context
 	kept     []keptT
+	keptPs   []keptParamsT
 }
 
 // data handed to callbacks, retained as handed over (it may alias the reader's
@@ -153,7 +154,35 @@ func (r *recorder) keepB(what string, b []byte) {
 	}
 	r.kept = append(r.kept, keptT{what: what, b: b, isB: true, copy: append([]byte{}, b...)})
 }
+// the parameter slice a statement function was called with, retained as handed over, and what its
+// elements said at that moment
+type keptParamsT struct {
+	ps   []wire.Parameter
+	vals [][]byte
+	null []bool
+	fmts []wire.FormatCode
+}
+
+func (r *recorder) keepParams(ps []wire.Parameter) {
+	k := keptParamsT{ps: ps}
+	for _, p := range ps {
+		k.vals = append(k.vals, append([]byte{}, p.Value()...))
+		k.null = append(k.null, p.Value() == nil)
+		k.fmts = append(k.fmts, p.Format())
+	}
+	r.keptPs = append(r.keptPs, k)
+}
+
 func (r *recorder) checkKept(when string) {
+	for _, k := range r.keptPs {
+		for i, p := range k.ps {
+			if (p.Value() == nil) != k.null[i] || string(p.Value()) != string(k.vals[i]) || p.Format() != k.fmts[i] {
+				r.bad("parameter %d of a parameter slice handed to a statement function changed afterwards (%s): now %q (format %d), was %q (format %d)",
+					i+1, when, p.Value(), p.Format(), k.vals[i], k.fmts[i])
+				return
+			}
+		}
+	}
 	for _, k := range r.kept {
 		if (k.isB && string(k.b) != string(k.copy)) || (!k.isB && k.s != string(k.copy)) {
 			r.bad("%s handed to a callback changed afterwards (%s): now %q, was %q", k.what, when, k.s+string(k.b), k.copy)
@@ -356,6 +385,7 @@ func buildServer(c *cfgT, reg *registry, extra ...wire.OptionFn) (*wire.Server, 
 				r.checkCtx(ctx, true)
 				r.checkKept("at a later statement call")
 				ps := []any{"params"}
+				r.keepParams(params)
 				for _, p := range params {
 					r.keepB("parameter value", p.Value())
 					if p.Value() == nil {
